@@ -69,14 +69,28 @@ Ltac step_cases H :=
   try (injection H as H; subst).
 
 Ltac simp_proj :=
-  repeat (autorewrite with proj in *; cbn [k g t sess set_k set_t set_g set_sess set_cs set_api set_ppc set_dpc set_kpc
+  repeat (autorewrite with proj; cbn [k g t sess set_k set_t set_g set_sess set_cs set_api set_ppc set_dpc set_kpc
      k_cs k_cfg k_api k_pending k_returning k_ppc k_dpc k_kpc k_started
      k_set_cs k_set_cfg k_set_api k_set_pending k_set_returning k_set_ppc k_set_dpc k_set_kpc k_set_started
      g_rx g_tx g_saved g_hs g_owed g_cbfail g_dead g_compfail g_delfail g_nextids
      g_set_rx g_set_tx g_set_saved g_set_hs g_set_owed g_set_cbfail g_set_dead g_set_compfail g_set_delfail g_set_nextids
      mark_dead set_owed finish_call log_tx drop_owed sess_reset fut_new
      t_protected t_store t_futs t_connfut t_set_store t_set_futs t_set_connfut store_del_f
-     s_counter s_in s_out sess_with] in *).
+     s_counter s_in s_out sess_with]).
 
+Ltac dgoal :=
+  repeat match goal with |- context [match ?x with _ => _ end] => destruct x eqn:? end.
+
+(* unfold the control helpers in the goal, splitting on what they branch on *)
 Ltac unfold_ctl :=
-  unfold die_proc, die_ping, die_done, die_cu_next, die_after_cu, api_cu_next, after_pub_cb, proc_rx in *.
+  unfold proc_rx, after_pub_cb; cbv beta zeta; dgoal;
+  unfold die_proc, die_ping, die_cu_next, api_cu_next, die_after_cu, die_done, cu_after; cbv beta zeta; dgoal;
+  unfold die_done; dgoal.
+
+Ltac use_eqs :=
+  repeat match goal with
+  | E : k_ppc (k ?s) = _ |- _ => rewrite E in *; clear E
+  | E : k_dpc (k ?s) = _ |- _ => rewrite E in *; clear E
+  | E : k_api (k ?s) = _ |- _ => rewrite E in *; clear E
+  | E : k_kpc (k ?s) = _ |- _ => rewrite E in *; clear E
+  end.
